@@ -205,6 +205,9 @@ def family(t, sd):
         b = lits[(i + 3) % len(lits)]
         extra.append('min %s * x + y\ns.t.\n    %s * x + y >= %s\n    x - y <= k\nwhere\n    let k = %s\ndefine\n    x as Real(0, %s)\n    y as NonNegativeReal(0, 50)' % (a, b, a, b, '%s' % (float(a) + 100)))
         extra.append('max x\ns.t.\n    c%d: x / %s <= %s\n    abs{ x - %s } <= min{ %s, 9 }\ndefine\n    x as Real(-%s, 1000000)' % (i, a, b, a, b, b))
+    # strict comparisons, on integer / Boolean operands (lowered one unit further in) and on real ones (kept strict)
+    extra += ['min x + y\ns.t.\n    x > -1.5\n    y < 3\n    c: x + y > 0.5\n    p < q\ndefine\n    x as IntegerRange(-4, 4)\n    y as Real(-2, 5)\n    p, q as Boolean',
+              'max a - b\ns.t.\n    a - (b - 1) < 2\n    -(a) > -3\n    abs{ a - b } < 2\ndefine\n    a, b as IntegerRange(-3, 3)']
     # iteration scopes with every binder shape - one name, a one-name tuple (binds the FIRST component, not the element),
     # two- and three-name tuples, `_` placeholders - over ranges (both kinds), arrays, matrices, enumerate, graph nodes
     # and edges, in blocks, quantified constraints and quantified declarations
